@@ -26,7 +26,7 @@ import (
 // an exported constructor.
 type ClientStream[Req any] struct {
 	conn StreamingHandlerConn
-	msg  Req
+	msg  *Req
 	err  error
 }
 
@@ -44,7 +44,8 @@ func (c *ClientStream[Req]) Receive() bool {
 	if c.err != nil {
 		return false
 	}
-	c.err = c.conn.Receive(&c.msg)
+	c.msg = new(Req)
+	c.err = c.conn.Receive(c.msg)
 	return c.err == nil
 }
 
@@ -52,7 +53,10 @@ func (c *ClientStream[Req]) Receive() bool {
 // returned message points to data that will be overwritten by the next call to
 // Receive.
 func (c *ClientStream[Req]) Msg() *Req {
-	return &c.msg
+	if c.msg == nil {
+		c.msg = new(Req)
+	}
+	return c.msg
 }
 
 // Err returns the first non-EOF error that was encountered by Receive.
